@@ -370,3 +370,11 @@ func funcKey(fn *types.Func) string {
 	}
 	return name
 }
+
+func (e *Engine) allRepoPkgs() map[string]bool {
+	m := map[string]bool{}
+	for _, p := range e.pkgs {
+		m[p.PkgPath] = true
+	}
+	return m
+}
